@@ -3091,6 +3091,12 @@ class ApiWorld:
                     ast = p.parse_chunk()
                     p._assert(TokenType.EOF)  # noqa: SLF001
                     return "ast:" + struct_json(ast)
+                if kind == "include_typing":
+                    # the legacy global switch: whatever it does to the module-level table, no later call may behave differently
+                    import tumfl.lexer as _lx
+                    if hasattr(_lx, "include_typing"):
+                        _lx.include_typing(op[1])
+                    return "ok"
                 if kind == "parser_typed":
                     from tumfl.parser import Parser
                     p = Parser(op[1], typed=True)
@@ -3146,8 +3152,10 @@ def random_history(r: random.Random, n: int) -> list[tuple]:
         elif k < 0.8:
             ops.append(("lexer_new", nlex, typed_text, r.random() < 0.5))
             nlex += 1
-        elif k < 0.95 and nlex:
+        elif k < 0.92 and nlex:
             ops.append(("lexer_next", r.randrange(nlex), r.choice([1, 1, 2])))
+        elif k < 0.95:
+            ops.append(("include_typing", r.random() < 0.6))
         else:
             if r.random() < 0.5:
                 ops.append(("parser_typed", r.choice(["x as y", "is = 1", "local as"])))
@@ -3200,9 +3208,25 @@ def isolated_result(op: tuple, history: list[tuple], root: Path) -> str:
     return w.call(op)
 
 
+def _typing_state():
+    import tumfl.lexer as _lx
+    return "as" in getattr(_lx, "RESERVED_KEYWORDS", {})
+
+
+def _restore_typing(state: bool) -> None:
+    import tumfl.lexer as _lx
+    if hasattr(_lx, "include_typing"):
+        with quiet():
+            try:
+                _lx.include_typing(state)
+            except Exception:  # noqa: BLE001
+                pass
+
+
 def run_c14(ctx: fw.Ctx) -> None:
     r = ctx.rng("c14")
     root = materialise(C14_TREE)
+    typing0 = _typing_state()
     try:
         st = ctx.stream("random histories of API calls, each result compared with the isolated call")
         all_results: list = []
@@ -3222,6 +3246,7 @@ def run_c14(ctx: fw.Ctx) -> None:
                     st.fail(f"call {i} ({op[0]}) returns a different result than in isolation", dict(case, index=i, got=got[:500], isolated=want[:500]))
                     break
                 all_results.append((case, i, op, got))
+            _restore_typing(typing0)
         # ... and the same call in a FRESH interpreter (module-level caches cannot leak into that one)
         fresh = fresh_results([op for _, _, op, _ in all_results], root)
         reported = set()
@@ -3237,7 +3262,9 @@ def run_c14(ctx: fw.Ctx) -> None:
         _sys.setswitchinterval(1e-6)
         try:
             for _ in range(ctx.n(40, 1500)):
-                hists = [random_history(r, r.randint(3, 10)) for _ in range(4)]
+                # the legacy global switch include_typing() rewrites a module-level table in place; calling it WHILE another thread constructs a lexer is
+                # outside the property (it quantifies over concurrent parse / format / resolve calls), so the threaded histories leave it out
+                hists = [[op for op in random_history(r, r.randint(3, 10)) if op[0] != "include_typing"] for _ in range(4)]
                 results: list[list[str]] = [[] for _ in hists]
 
                 def worker(i: int):
@@ -3250,6 +3277,7 @@ def run_c14(ctx: fw.Ctx) -> None:
                     t.start()
                 for t in ths:
                     t.join()
+                _restore_typing(typing0)
                 case = {"kind": "threads", "histories": hists}
                 st2.record(case, key=json.dumps(hists, sort_keys=True, default=str))
                 for i, h in enumerate(hists):
@@ -3802,16 +3830,20 @@ LEAN_OBLIGATIONS.update({
         partial_hypotheses=["Token.__eq__ and AttributedName.__eq__ are part of the oracle stream, not of the generic model (atoms are compared as rendered values)"],
     ),
     "C04": dict(
-        modules=["Tumfl.Props.C04", "Tumfl.Props.Final"],
+        modules=["Tumfl.Props.C04", "Tumfl.Props.Final", "Tumfl.Props.C04Faithful"],
         obligations=["Tumfl.Props.C04_lookup", "Tumfl.Props.C04_lookup_none", "Tumfl.Props.C04_no_require", "Tumfl.Props.C12_untouched", "Tumfl.Props.C12_errors",
                      "Tumfl.Props.C04_terminates", "Tumfl.Props.C04_outcome_unique", "Tumfl.Props.C04_formats_valid", "Tumfl.Props.C04_formats_valid_final",
-                     "Tumfl.Props.C04_expr_cycle_diverges"],
+                     "Tumfl.Props.C04_expr_cycle_diverges",
+                     "Tumfl.Props.C04_faithful", "Tumfl.Props.C04_faithful_dedup", "Tumfl.Props.C04_spec_deterministic", "Tumfl.Props.C04_faithful_unique",
+                     "Tumfl.Props.C04_spec_forget", "Tumfl.Props.C04_dedup", "Tumfl.Props.C04_faithful_example", "Tumfl.Props.C04_spec_strict"],
         extractors=["Ladder", "LexTables", "FmtTables", "Brackets"],
         tie_names=["T2:resolve (model resolver on the abstract file system vs the real resolver on a real directory tree: whole resulting AST or the error)",
                    "T2:format (formatting of the result goes through the same model)"],
         partial_hypotheses=["proved on the model: lookup order, no require remains, termination for every tree whose expression-level require edges are acyclic (explicit depth bound), "
                             "and that the emitted pieces of the result read as a valid chunk with the spliced tree (C04_formats_valid; K4 and empty spliced files under KEEP_SEMICOLON "
-                            "excluded); faithfulness of the splice itself (the spliced statements are exactly the file's) is by construction of the model, tied by T2:resolve + the inlining oracle",
+                            "excluded); faithfulness of the splice: C04_faithful / C04_faithful_dedup - the result is related to the main file's tree by a declarative inlining relation "
+                            "(congruence everywhere except at literal requires; statement -> the file's chunk or an empty statement exactly according to the table of files inlined so far; "
+                            "expression -> immediately invoked function receiving the module name), and that relation is functional (C04_faithful_unique); model vs code: T2:resolve + the inlining oracle",
                             "K4 (statement-level require of a file with a top-level return) is a known finding"],
     ),
     "C12": dict(
